@@ -980,7 +980,12 @@ class SmiV2Parser(AbstractParser):
                        | Compliance"""
         n = len(p)
         if n == 3:
-            p[0] = p[1] and p[2] and ('Compliances', p[1][1] + [p[2]]) or p[1]
+            if p[1] and p[2]:
+                p[0] = ('Compliances', p[1][1] + [p[2]])
+            elif p[2]:
+                p[0] = ('Compliances', [p[2]])
+            else:
+                p[0] = p[1]
         elif n == 2:
             p[0] = p[1] and ('Compliances', [p[1]]) or None
 
